@@ -171,7 +171,7 @@ def judge_race(rq, o, log):
     return bad
 
 
-def run_stream(exe, reqs, shards=4):
+def run_stream(exe, reqs, shards=4, test="TestVerifC09Stream"):
     import concurrent.futures
     if not reqs:
         return []
@@ -179,7 +179,7 @@ def run_stream(exe, reqs, shards=4):
     parts = [reqs[i::shards] for i in range(shards)]
 
     def one(k):
-        rc, lines, log = vlib.run_harness(exe, "TestVerifC09Stream", "".join(json.dumps(r) + "\n" for r in parts[k]), timeout=300, tag="_st%d" % k)
+        rc, lines, log = vlib.run_harness(exe, test, "".join(json.dumps(r) + "\n" for r in parts[k]), timeout=300, tag="_st%d%s" % (k, test[-3:]))
         outs = []
         for ln in lines:
             try:
@@ -216,6 +216,39 @@ def judge_stream(rq, o):
             bad.append(("caller-stuck-streaming-peer:%s" % name, "call '%s' had not returned within %d ms (%s, streaming reader)" % (name, rq["budget_ms"], what)))
         elif r != STREAM_EXPECT.get(name):
             bad.append(("caller-result:stream:%s:%s" % (name, r), "call '%s' returned %s, expected %s (%s, streaming reader)" % (name, r, STREAM_EXPECT.get(name), what)))
+    if o.get("close_again") != "closed":
+        bad.append(("double-close:%s" % o.get("close_again"), "Close after everything gave %s" % o.get("close_again")))
+    if o.get("panics"):
+        bad.append(("panic", "panic: %s" % o["panics"][:2]))
+    return bad
+
+
+def judge_flood(rq, o):
+    if o is None or o.get("error"):
+        return [("harness-run", "no usable observation for flood scenario %s: %s" % (rq["id"], o))]
+    what = []
+    if o.get("flood_blocked_at", -1) >= 0:
+        what.append("the client stopped reading at keep-alive number %d of %d" % (o["flood_blocked_at"] + 1, rq["k"]))
+    if not o.get("behind_taken", True):
+        what.append("the %s behind the flood was not taken" % rq["behind"])
+    if o.get("connect") == "stuck":
+        what.append("Connect had not returned %d ms after the connection ended (%s)" % (rq["budget_ms"], rq["cause"]))
+    for name, r in sorted((o.get("callers") or {}).items()):
+        if r == "stuck":
+            what.append("call '%s' had not returned" % name)
+    bad = []
+    if what:
+        bad.append(("keepalive-flood-parks-read-loop", "%s — %d keep-alives sent while the peer reads nothing (the client cannot get its acks out), then %s" % (
+            "; ".join(what), rq["k"], rq["cause"])))
+        return bad
+    want = "closed" if rq["cause"] in ("close", "shutdown") else "other"
+    if o.get("connect") != want:
+        bad.append(("connect-result-reason:flood:%s:%s" % (rq["cause"], o.get("connect")), "Connect returned class %s, expected %s after a flood ended by %s" % (
+            o.get("connect"), want, rq["cause"])))
+    exp = {"served": ("ok",), "queued": ("closed",), "shutdown": ("ctx", "closed")}
+    for name, r in sorted((o.get("callers") or {}).items()):
+        if r not in exp.get(name, ()):
+            bad.append(("caller-result:flood:%s:%s" % (name, r), "call '%s' returned %s, expected %s (flood, %s)" % (name, r, exp.get(name), rq["cause"])))
     if o.get("close_again") != "closed":
         bad.append(("double-close:%s" % o.get("close_again"), "Close after everything gave %s" % o.get("close_again")))
     if o.get("panics"):
@@ -342,6 +375,36 @@ def gen_scripts(thorough):
         b.op("state")
         b.op("peer_close")
         finish(b, [1, 2], "cancel-isolated", "req1", other=other)
+    # the peer stalls its receive side and floods k keep-alives (k well past the ack queue's bound), optionally with reports / a
+    # reply behind the flood; then the connection ends by EOF, by a local Close, or during a Shutdown that cannot complete.
+    # Every peer frame must be taken (the read loop never parks in a handler), the reply must arrive, everything must return.
+    for k in ((7, 20, 100) if not thorough else (6, 7, 8, 20, 100, 300)):
+        for cause in ("eof", "close", "shutdown"):
+            for behind in ("none", "reports", "reply"):
+                b = cc.SB("c09-flood-k%d-%s-%s" % (k, cause, behind), version=1,
+                          default_handler=dict(mode="all") if behind == "reports" else None)
+                b.connect()
+                started = []
+                if behind == "reply":
+                    b.send(1, 20, 8, 431)                    # read by the peer; after that it reads nothing any more
+                    started.append(1)
+                for i in range(k):
+                    b.keepalive(6000 + i)
+                if behind == "reports":
+                    for i in range(3):
+                        b.peer(61, 7000 + i, 30, 440 + i)
+                if behind == "reply":
+                    b.peer(30, 0, 12, 432)
+                    b.wait(1)
+                b.op("state")
+                if cause == "close":
+                    b.op("close")
+                elif cause == "shutdown":
+                    b.steps.append(dict(op="shutdown", caller=3))   # queued behind the write loop's blocked Write
+                    started.append(3)
+                    b.op("close")
+                b.op("peer_close")
+                finish(b, started, "flood-" + cause, "req1", k=k, behind=behind)
     # a reply split across a cancellation / Close: the peer sends the reply's first `cut` bytes (nothing but part of the header;
     # exactly the header; header + part of the payload; all but the last byte), the waiting caller is cancelled (or the client is
     # closed), the peer sends the rest. The stream must stay usable: another caller (already in flight, or started afterwards) gets
@@ -419,6 +482,21 @@ def pred_script(s, g):
         if st_obs and st_obs[0].get("awaiting") not in (0, None):
             extra.append(("cancel-leaves-await-entry", "awaiting map has %s entries after both requests ended (script %s)" % (st_obs[0].get("awaiting"), s["id"])))
     fam = s.get("family") or ""
+    if fam.startswith("flood-"):
+        what = []
+        for i, (st, o) in enumerate(zip(steps, obs)):
+            if st["op"] in ("keepalive", "peer_send") and o.get("st") != "ok":
+                what.append("step %d: the client did not take the peer's frame (typ %s, id %s): %s" % (i, st.get("typ", 62), st.get("id"), o.get("st")))
+                break
+        if s.get("behind") == "reply":
+            w = [o for st, o in zip(steps, obs) if st["op"] == "wait_caller" and st["caller"] == 1]
+            if not w or w[0].get("res") != "ok":
+                what.append("the reply behind the flood did not reach caller 1: %s" % (w[0].get("res") if w else None))
+        what += ["%s still blocked after the connection ended" % b[0] for b in bad]
+        if what:
+            return extra + [("keepalive-flood-parks-read-loop", "%s (script %s: %d keep-alives while the peer reads nothing, then %s)" % (
+                "; ".join(what), s["id"], s.get("k"), fam[6:]))]
+        return extra
     if fam.startswith("split-"):
         sig = "reply-split-across-%s-wedges-read-loop" % fam[6:]
         what = []
@@ -494,6 +572,10 @@ def run(tier, seed, replay=None):
             o = run_stream(exe, [rp["request"]])[0]
             for sig, text in judge_stream(rp["request"], o):
                 report(sig, text, dict(kind="stream", request=rp["request"], observed=o))
+        elif rp.get("kind") == "flood":
+            o = run_stream(exe, [rp["request"]], test="TestVerifC09Flood")[0]
+            for sig, text in judge_flood(rp["request"], o):
+                report(sig, text, dict(kind="flood", request=rp["request"], observed=o))
         elif rp.get("kind") == "script":
             g, _ = cc.run_go(exe, [rp["script"]], shards=1)
             for sig, text in pred_script(rp["script"], g[0] or {}):
@@ -547,6 +629,18 @@ def run(tier, seed, replay=None):
     if stream_obs and stream_obs[0]:
         samples.append(dict(request=stream_reqs[0], observed=stream_obs[0]))
 
+    # ---- tie 1d: keep-alive flood into a peer that reads nothing, then every termination cause (time budget)
+    flood_reqs = [dict(id="flood-k%d-%s-%s" % (k, cause, behind), k=k, cause=cause, behind=behind, timeout_ms=150, budget_ms=2000)
+                  for k in ((7, 20, 100) if not thorough else (5, 6, 7, 8, 20, 100, 1000))
+                  for cause in ("eof", "close", "shutdown", "deadline") for behind in ("none", "reports", "reply")]
+    flood_obs = run_stream(exe, flood_reqs, shards=6, test="TestVerifC09Flood")
+    for rq, o in zip(flood_reqs, flood_obs):
+        evals += 1
+        dist["flood/" + rq["cause"]] = dist.get("flood/" + rq["cause"], 0) + 1
+        nontriv.add((rq["id"],))
+        for sig, text in judge_flood(rq, o):
+            report(sig, text + " [%s]" % rq["id"], dict(kind="flood", request=rq, observed=o, theorem="C09_flood_keeps_reading"))
+
     # ---- tie 2: frame-level scripts against the model (with / without the fixed Connect)
     scripts = gen_scripts(thorough)
     go, logs = cc.run_go(exe, scripts, shards=8)
@@ -587,7 +681,7 @@ def run(tier, seed, replay=None):
              "non-trivial (a live session with callers in flight); distinct by (version, action, offset, variant) / script id",
         samples=samples, input_distribution=dist, traces_validated_against_impl=len(scripts),
         fault_points=len({(r["version"], r["action"], r["off"]) for r in reqs}),
-        close_race_rounds=race_rounds, streaming_peer_runs=len(stream_reqs),
+        close_race_rounds=race_rounds, streaming_peer_runs=len(stream_reqs), flood_runs=len(flood_reqs),
         stuck_fault_points={k: dict(count=len(v), first=v[:3]) for k, v in stuck_points.items()},
         model_variant=dict(connect_watches_errs_while_negotiating=watch, filter_unsolicited=variant[0], stamp_always=variant[1], disagreeing=n),
         partial="time-bounded wording ('promptly', 'once the connection ends') is proved as enabledness and measured by quiescence",
